@@ -86,7 +86,7 @@ class World:
         p = live[-1]
         opts = [m for m in self.menu if m != "stay" or self.idle < 2]
         if p.program.done():
-            opts = [m for m in opts if m in ("finish", "die", "stay")] or ["finish"]
+            opts = [m for m in opts if m in ("finish", "die", "sig", "stay")] or ["finish"]
         c = self.ch.choose(len(opts), "proc") if len(opts) > 1 else 0
         act = opts[c]
         if act == "stay":
@@ -105,6 +105,9 @@ class World:
         elif act == "die":
             p.program.advance(1, partial=True)
             p.returncode = 1
+        elif act == "sig":
+            # killed by a signal (not by us): negative return code
+            p.returncode = -11
         if p.program.done() and p.returncode is None and act in ("frame", "2frames"):
             # the program wrote its last frame: it exits on its own at the next poll or later
             pass
